@@ -451,7 +451,13 @@ ElemFaults(kind) ==
                    [cls |-> "outofrange:over:quoted", node |-> Bad(kind, "over", "str", "quoted")] }
       [] kind = "bytes" -> ShapeFaults \cup {BoolFault, NumFault}
             \cup { [cls |-> "invalid-base64:alphabet", node |-> Bad(kind, "bad", "str", "stdpad")],
-                   [cls |-> "invalid-base64:length", node |-> Bad(kind, "badlen", "str", "stdpad")] }
+                   [cls |-> "invalid-base64:length", node |-> Bad(kind, "badlen", "str", "stdpad")],
+                   \* padding that does not belong: "=" after a complete quantum, more "=" than complete the last
+                   \* quantum, nothing but padding
+                   [cls |-> "invalid-base64:overpad-full", node |-> Bad(kind, "overpad", "str", "stdpad")],
+                   [cls |-> "invalid-base64:overpad-partial", node |-> Bad(kind, "overpad2", "str", "stdpad")],
+                   [cls |-> "invalid-base64:overpad-url", node |-> Bad(kind, "overpadurl", "str", "urlpad")],
+                   [cls |-> "invalid-base64:onlypad", node |-> Bad(kind, "onlypad", "str", "stdpad")] }
       [] kind = "timestamp" -> ShapeFaults \cup {BoolFault, NumFault}
             \cup { [cls |-> "invalid-timestamp:text", node |-> Bad(kind, "bad", "str", "utc")],
                    [cls |-> "invalid-timestamp:dateonly", node |-> Bad(kind, "dateonly", "str", "utc")] }
@@ -543,7 +549,7 @@ EndValue ==
     \* a fault needs a member to sit in: a zero value without presence is omitted from the document
     /\ (Mode = "fault" => ~(card = "one" /\ kind \in LeafKinds /\ pos \notin {"armdirect", "expdirect"} /\ elems[1].a \in ZeroAtoms(kind)))
     /\ \E tg \in BOOLEAN :
-        /\ (~tg => (elems = <<>> \/ pos \in {"flat", "flat2"}) /\ pos \notin {"top", "armdirect", "expdirect"} /\ Mode = "val")
+        /\ (~tg => (elems = <<>> \/ pos \in {"flat", "flat2"}) /\ pos \notin {"top", "armdirect", "expdirect"} /\ Mode \in {"val", "spell"})
         /\ tagged' = tg
     /\ phase' = (CASE Mode = "val" -> "done" [] Mode = "spell" -> "spell" [] Mode = "fault" -> "fault" [] Mode = "query" -> "spell")
     /\ UNCHANGED <<kind, card, pos, anyc, elems, lbls, wfonly, sp, ws, fcls>>
@@ -642,7 +648,7 @@ Emit ==
                      enc |-> EncDoc, anyc |-> anyc, wfonly |-> wfonly, dec |-> NormNode(Schema, Value)]
               [] Mode = "spell" ->
                     [mode |-> "spell", kind |-> kind, card |-> card, pos |-> pos, vl |-> Label, sch |-> Schema, val |-> Value,
-                     doc |-> Doc, ws |-> ws, anyc |-> anyc, form |-> sp.form,
+                     doc |-> Doc, canon |-> EncDoc, ws |-> ws, anyc |-> anyc, form |-> sp.form,
                      sp |-> sp.form \o (IF sp.rev THEN "+reorder" ELSE "") \o (IF sp.nulls THEN "+nulls" ELSE "") \o (IF ws # "none" THEN "+ws-" \o ws ELSE ""),
                      expect |-> IF DecDoc = Reject THEN "reject" ELSE "accept", demand |-> TRUE, dec |-> DecDoc]
               [] Mode = "fault" ->
